@@ -11,7 +11,7 @@
   The taxonomy (`is` graph) is the model of Hs.Model.Ns on the projection `RowX.toRow`; results are lists of
   def names, compared as sets wherever the code drains a `HashSet`.
 
-  `protos` is Hs.Model.NsProtos.  Not modelled: `core_type_defs` (16 look-ups).
+  `protos` and `core_type_defs` are Hs.Model.NsProtos.
   Core-only imports (linked into `hsdriver`).
 -/
 import Hs.Model.Ns
